@@ -202,6 +202,41 @@ def run(ctx):
                fn=pb.path, construct="variant-coverage", callee=v)
     ctx.floor("C02.byte-table", "parser alternatives", len(table), 9)
 
+    # ---- nothing is dropped between the reader and the dispatcher ------------------------------------
+    # "each client command invokes exactly the matching callback": a command the reader delivered reaches the `match` on its kind
+    # unless it cannot be parsed.  Every iteration path that leaves the loop before the dispatching match must do so with the
+    # reader's own error, the parser's error, or at end of input (the reader's `None`): a filter on anything else (the sequence
+    # id, the length, ..) silently discards well-formed commands.
+    ctx.rule("C02.dispatch-total", "a command delivered by the reader reaches the dispatching match unless the command parser refuses it")
+    n_pre = 0
+    parse_rx = r"^commands::parse$"
+    for arm, outcome, p in lm.iteration_paths():
+        if arm is not None or not outcome.startswith("return"):
+            continue
+        if lm.switch_bb in p.blocks:
+            continue
+        n_pre += 1
+        rv = p.return_value()
+        calls_on_path = [cname(t["func"]) for _, _, t in p.calls()]
+        if outcome == "return-ok":
+            # end of input: the reader said `None` (decided by C19.ok-exactly-at-boundary); no command was delivered on this path
+            ok = not any(re.search(parse_rx, c) for c in calls_on_path)
+            why = "the loop returns Ok before dispatching a command that was already handed to the parser"
+        else:
+            # the error handed back IS the reader's or the parser's failure (its residual / error payload, possibly mapped); an
+            # error built from the *delivered* command (its sequence id, its bytes) is a filter
+            def _is_src(y):
+                y = T.peel(y, payloads=False) if isinstance(y, tuple) else y
+                while isinstance(y, tuple) and y[0] == "call" and re.search(r"(map_err|Into<.*>>::into|From<.*>>::from)$", y[1]) and y[2]:
+                    y = T.peel(y[2][0], payloads=False)
+                return isinstance(y, tuple) and y[0] == "call" and (y[1] == roles.f_read.path or re.search(parse_rx, y[1]) is not None)
+            src = T.find(rv, lambda x: isinstance(x, tuple) and x[0] in ("errresidual", "errpayload") and _is_src(x[1]))
+            ok = src is not None
+            why = "the loop returns %s before the dispatching match: a delivered command is discarded for a reason other than a read or parse failure" % term_str(rv)[:100]
+        ctx.ob("C02.dispatch-total", ok, why, fn=fr.path, construct="pre-dispatch-exit", where=fr.where(p.blocks[-1]),
+               sample={"rule": "dispatch-total", "outcome": outcome, "value": term_str(rv)[:80] if rv else None})
+    ctx.floor("C02.dispatch-total", "exits of the command loop before the dispatching match", n_pre, 2)
+
     # ---- fixed fields ----------------------------------------------------------------------
     for fnpat, variant in ((r"^commands::execute$", "Execute"), (r"^commands::send_long_data$", "SendLongData")):
         b = prog.one(fnpat)
@@ -424,6 +459,4 @@ def run(ctx):
 
     # what the shim is handed is what the reader reassembled: the inbound reassembly clauses (C01's rules: window
     # invariant, parse-before-wait, short-is-not-error, framing constants) are part of `verbatim` / `exactly what the client sent`
-    import rules.C01 as C01
-    C01.run(ctx, configs=["tls"])
 
